@@ -99,13 +99,13 @@ type SeqCase struct {
 func genOp(t *rapid.T, nkeys int, withSleep bool) Op {
 	kinds := []string{"add", "add", "get", "get", "remove", "release", "release", "release"}
 	if withSleep {
-		kinds = append(kinds, "sleep", "yield")
+		kinds = append(kinds, "sleep", "yield", "release2")
 	}
 	o := Op{Op: rapid.SampledFrom(kinds).Draw(t, "op")}
 	switch o.Op {
 	case "add", "get", "remove":
 		o.Key = rapid.IntRange(0, nkeys-1).Draw(t, "key")
-	case "release":
+	case "release", "release2":
 		o.Handle = rapid.IntRange(0, 15).Draw(t, "handle")
 		o.Evict = rapid.Bool().Draw(t, "evict")
 	case "sleep":
@@ -405,6 +405,27 @@ func runConc(c ConcCase, ev *pbt.Ev) error {
 						x.v.held.Add(-1)
 					}
 					x.done(op.Evict)
+				case "release2":
+					// the same release handle invoked from three goroutines at once: still one release
+					if len(hs) == 0 {
+						continue
+					}
+					x := hs[op.Handle%len(hs)]
+					if !x.released {
+						if x.v.fin.Load() != 0 {
+							fail(pbt.Violf("finalised-while-held", "goroutine %d: value #%d finalised while this holder had not released it", gi, x.v.id))
+						}
+						x.released = true
+						x.v.held.Add(-1)
+					}
+					var rw sync.WaitGroup
+					gate := make(chan struct{})
+					for r := 0; r < 3; r++ {
+						rw.Add(1)
+						go func() { defer rw.Done(); <-gate; x.done(op.Evict) }()
+					}
+					close(gate)
+					rw.Wait()
 				case "sleep":
 					time.Sleep(time.Duration(op.Key) * time.Microsecond)
 				case "yield":
